@@ -70,6 +70,9 @@ def cases(tier, seed):
             yield dict(env=env, f=f_, lam=lam_, wires=ws, name='tube-%s-%s' % (nm, env))
     for c in c03._lean(tier, seed):
         yield dict(env='ideal', f=c['f'], lam=c['lam'], pts=c['pts'], st=c['st'], name=c['name'])
+    for c in c03._perp(tier, seed):            # exactly perpendicular sloping wires over ground (and in free space)
+        yield dict(env='ideal', f=c['f'], lam=c['lam'], pts=c['pts'], st=c['st'], name=c['name'])
+        yield dict(env='free', f=c['f'], lam=c['lam'], pts=c['pts'], st=c['st'], name=c['name'])
     for c in c06.extras(tier, seed, thick=True):
         for i, ws in enumerate(c['descs']):
             yield dict(env=c['env'], f=c['f'], lam=c['lam'], wires=ws, name='%s#%d' % (c['extra'], i))
